@@ -11,6 +11,7 @@ package c17core
 import (
 	"encoding/asn1"
 	"encoding/base64"
+	"encoding/json"
 	"math/big"
 	"strconv"
 	"strings"
@@ -1267,6 +1268,64 @@ func (g *gen) directedFaultCase(k int) {
 	g.doDecPlain(1)
 }
 
+// directedLegacyConvergentCase: a convergent key ring in the form the convergent-version-2 code stored it (policy-level
+// convergent_version 2, no per-key value) — produced by editing a backup of a fresh key and restoring it — is rotated;
+// the new key version carries the current convergent scheme, so encrypt accepts it: decrypt must give the plaintext
+// back. For the trace model the edited backup is backup B1 (the key material is unchanged; only version 2 is used).
+func (g *gen) directedLegacyConvergentCase() {
+	g.typ, g.derived, g.convergent = "aes256-gcm96", true, true
+	cls := g.t.New(g.typ, true, true)
+	g.epoch++
+	g.emit(g.polResult(cls), "new", g.typ, "1", "1")
+	tr := true
+	g.doConfig(nil, nil, nil, &tr, &tr)
+	g.opBackup()
+	if len(g.backups) == 0 {
+		return
+	}
+	raw, err := base64.StdEncoding.DecodeString(g.backups[0])
+	var kd map[string]any
+	if err != nil || json.Unmarshal(raw, &kd) != nil {
+		return
+	}
+	pol, _ := kd["policy"].(map[string]any)
+	if pol == nil {
+		return
+	}
+	pol["convergent_version"] = 2
+	if ks, ok := pol["keys"].(map[string]any); ok {
+		for _, e := range ks {
+			if m, ok := e.(map[string]any); ok {
+				m["convergent_version"] = 0
+			}
+		}
+	}
+	if ak, ok := kd["archived_keys"].(map[string]any); ok {
+		if l, ok := ak["keys"].([]any); ok {
+			for _, e := range l {
+				if m, ok := e.(map[string]any); ok {
+					m["convergent_version"] = 0
+				}
+			}
+		}
+	}
+	mod, _ := json.Marshal(kd)
+	g.backups[0] = base64.StdEncoding.EncodeToString(mod)
+	cls = g.t.Restore(g.backups[0], true)
+	g.lastRestoreOp = "restore"
+	if cls == "" {
+		g.epoch++
+	}
+	g.emit(g.polResult(cls), "restore", "1", "1")
+	g.opRotate()
+	g.doEnc(0, []byte("ctx-a"), nil, nil, []byte("legacy ring, new version"))
+	g.doDecPlain(len(g.arts))
+	g.opRotate()
+	g.doEnc(0, []byte("ctx-b"), nil, nil, []byte("legacy ring, third version"))
+	g.doDecPlain(len(g.arts))
+	g.doDecPlain(len(g.arts) - 1)
+}
+
 // doDecPlain decrypts handle h unmodified with its own context and associated data.
 func (g *gen) doDecPlain(h int) {
 	if h < 1 || h > len(g.arts) {
@@ -1308,6 +1367,11 @@ func Run(out *vh.Out, rng *vh.Rand, mk func(useCache bool) Target, cases, opsPer
 			default:
 				g.directedRestoreFaultCase(c == 5)
 			}
+			g.t.Close()
+			continue
+		}
+		if !faults && c == 0 {
+			g.directedLegacyConvergentCase()
 			g.t.Close()
 			continue
 		}
